@@ -8,6 +8,7 @@ types or other groups the compiled expression saw before.
 -/
 import Kap.Proofs.C04
 import Kap.Proofs.C04Cache
+import Kap.Proofs.C04Trap
 import Kap.Model.C04Legacy
 import Kap.Gen.C04
 namespace Kap.Props.C04
@@ -98,6 +99,59 @@ which is not even a key) … -/
 example {F : Type} (ctx : Ctx F) :
     Inv ctx (.bin .plus (.ref "a") (.lit (.int 1))) (.node .float .string none .leaf .leaf .leaf) := by
   simp [Kap.C04.Inv, isDyn]
+
+/-! ### No evaluation panics -/
+
+/-- **no_trap.** With the operator table as it is in the source now, no evaluation of any expression against
+any scope, through any entry path, in any function state, after any history, panics: zero divisors of the
+integer and duration `/` and `%` are errors, `strSubstring` checks `0 ≤ start ≤ stop ≤ len` before slicing, a
+call with too many arguments is a signature error. (External library calls are outside the model; they are
+total Go functions.) -/
+theorem no_trap {F : Type} (ctx : Ctx F) (htbl : ctx.tbl = Gen.table) (e : Expr F)
+    (pre : List (Path × Scope F × FnState F)) (p : Path) (σ : Scope F) (st : FnState F) :
+    (runPath ctx σ p e (reach ctx e pre) st).1 ≠ .trap := by
+  have ht : TblNoTrap ctx := by
+    intro ent hm vl vr hl hr
+    rw [htbl] at hm
+    obtain ⟨h1, h2, _⟩ := table_sound ctx.ops ctx.reMatch ent hm
+    exact table_no_trap ctx.ops ctx.reMatch ent hm vl vr (hl.trans h1) (hr.trans h2)
+  rw [(runPath_eq ctx σ p e _ st (reach_inv ctx e pre)).1]
+  exact runPathN_trap ctx σ ht p e st
+
+/-- Every value an `EvalX` returns has type X (the type guards are complete). -/
+theorem result_has_requested_type {F : Type} (ctx : Ctx F) (σ : Scope F) (e : Expr F) (w : Ty) (st : FnState F)
+    (v : Value F) (h : (evalN ctx σ w e st).1 = .ok v) : v.ty = w :=
+  evalN_ty ctx σ e w st v h
+
+/-! ### Agreement with the reference semantics -/
+
+/-- the incremental state of the stateful builtins represents a history of arguments. -/
+def StateRel {F : Type} (ctx : Ctx F) (st : FnState F) (h : Hist F) : Prop :=
+  st.count = wrap h.counts ∧
+  st.spMin = h.spreads.foldl (fun m y => if ctx.ops.lt y m then y else m) ctx.ops.posInf ∧
+  st.spMax = h.spreads.foldl (fun m y => if ctx.ops.gt y m then y else m) ctx.ops.negInf ∧
+  (st.sN, st.sMean, st.sM2) = h.sigmas.foldl (fun (acc : F × F × F) y =>
+      let n := ctx.ops.add acc.1 (ctx.ops.ofInt 1)
+      let delta := ctx.ops.sub y acc.2.1
+      let mean := ctx.ops.add acc.2.1 (ctx.ops.div delta n)
+      (n, mean, ctx.ops.add acc.2.2 (ctx.ops.mul delta (ctx.ops.sub y mean))))
+    (ctx.ops.ofInt 0, ctx.ops.ofInt 0, ctx.ops.ofInt 0)
+
+/-- FULL STATEMENT, stated and NOT proved (listed as stated-unproved, never counted): on every point at
+which the expression is well typed in the reference typing `typeRef`, the evaluator returns exactly the
+outcome of the reference big-step semantics `valRef` (value, or error for a run-time fault) and steps the
+stateful functions exactly as the reference does. What IS proved of it: the operator level (`table_sound`,
+`table_complete`: every operator application computes `refBinop` on exactly the documented type pairs),
+`result_has_requested_type`, `no_trap`, and that the evaluator is a function of expression, point and
+group state only (`cache_transparent`, `history_independent`). What is missing is the induction over
+expressions relating `Type()`/`EvalX` to `typeRef`/`valRef` (unary operators, short circuit, argument
+evaluation, the `StateRel` simulation); on every run the driver checks this statement on the OBSERVED answers
+of the real evaluator instead (`Kap.C04.expect`). -/
+def agrees_with_reference_stmt : Prop :=
+  ∀ (F : Type) (ctx : Ctx F), ctx.tbl = Gen.table →
+    ∀ (σ : Scope F) (e : Expr F) (t : Ty) (st : FnState F) (h : Hist F),
+      StateRel ctx st h → typeRef ctx σ e = some t →
+        (evalN ctx σ t e st).1 = (valRef ctx σ e h).1 ∧ StateRel ctx (evalN ctx σ t e st).2 (valRef ctx σ e h).2
 
 /-! ### Counterexamples: the evaluator of snapshot ef0888e (model `Kap.C04.Legacy`) is NOT transparent -/
 
